@@ -1239,6 +1239,15 @@ func binop(x *ssa.BinOp, l, r any) (any, *EvalError) {
 			return !same, nil
 		}
 	}
+	// a function value compared with nil
+	for _, side := range [][2]any{{l, r}, {r, l}} {
+		switch side[0].(type) {
+		case *ssa.Function, *EClosure:
+			if side[1] == nil && (x.Op == token.EQL || x.Op == token.NEQ) {
+				return x.Op == token.NEQ, nil
+			}
+		}
+	}
 	// a stand-in object (a reader over known bytes, a scanner) compared with nil or with itself
 	if _, isReader := l.(*EBytesReader); isReader && (x.Op == token.EQL || x.Op == token.NEQ) {
 		same := l == r
